@@ -190,4 +190,9 @@ class SystemTransport(Transport):
     def write(self, channel_input: bytes) -> None:
         if not self.session:
             raise ScrapliConnectionNotOpened
-        self.session.write(channel_input)
+        try:
+            self.session.write(channel_input)
+        except OSError as exc:
+            raise ScrapliConnectionError(
+                f"encountered error writing to transport, connection lost: {exc!r}"
+            ) from exc
